@@ -145,7 +145,7 @@ def c_mod(a, b):
 
 C_BINOPS = dict(PY_BINOPS)
 C_BINOPS.update({"/": c_div, "%": c_mod, "&&": lambda a, b: a and b, "||": lambda a, b: a or b,
-                 "===": operator.eq, "!==": operator.ne, ".": lambda a, b: str(a) + str(b)})
+                 "===": operator.eq, "!==": operator.ne})   # no ".": the PHP frontend maps concatenation to the shared "+"
 C_UNOPS = dict(PY_UNOPS)
 C_UNOPS.update({"!": operator.not_})
 
@@ -713,6 +713,29 @@ class VM:
         attrs = s.get("attrs")
         a.is_tuple = isinstance(attrs, str) and "tuple" in attrs
         self.write_name(frame, s.get("target"), a, s)
+
+    def op_new_object(self, frame, s):
+        """target = new data_type(args): a class of the unit is instantiated (constructor runs), anything else is a plain object"""
+        dt = s.get("data_type")
+        cls = None
+        if isinstance(dt, str) and dt and not dt.startswith("%"):
+            try:
+                cand = self.read_name(frame, dt.strip())
+                if isinstance(cand, ClassObj):
+                    cls = cand
+            except VMRuntimeError:
+                cls = None
+        if cls is not None:
+            pos, named = self.eval_args(frame, s) if (s.get("positional_args") or s.get("named_args")) else ([], {})
+            if not pos and s.get("args"):
+                try:
+                    pos = [self.read(frame, a, s) for a in (ast.literal_eval(s.get("args")) if isinstance(s.get("args"), str) else list(s.get("args")))]
+                except Exception:
+                    raise VMUnsupported(f"new_object args {s.get('args')!r}")
+            v = self.call_value(frame, cls, pos, named, s)
+        else:
+            v = Obj(ClassObj(s, str(dt)), s["stmt_id"])
+        self.write_name(frame, s.get("target"), v, s)
 
     def op_new_record(self, frame, s):
         self.write_name(frame, s.get("target"), {}, s)
